@@ -348,10 +348,10 @@ def self_test(ctx, variant, paths, macro_sep=True):
 GENERIC = {
     # prop: (quick sizes, thorough sizes, events)
     "C01": dict(q=dict(cover_n=1200, soup_n=5000, trunc_n=800, mb_n=300, gen_n=4000), t=dict(cover_n=-1, soup_n=60000, trunc_n=6000, mb_n=3000, corpus_trunc=400), events=True),
-    "C02": dict(q=dict(cover_n=1200, soup_n=4000, trunc_n=300, mb_n=800, extra=dict(sep_family=1500)), t=dict(cover_n=40000, soup_n=50000, trunc_n=4000, mb_n=8000, extra=dict(sep_family=20000)), events=True),
-    "C03": dict(q=dict(cover_n=1200, soup_n=3000, mb_n=2500, trunc_n=200, extra=dict(sep_family=1500)), t=dict(cover_n=40000, soup_n=40000, mb_n=30000, trunc_n=2000, extra=dict(sep_family=20000)), events=True),
-    "C04": dict(q=dict(cover_n=1200, soup_n=3000, lf_n=1200, mb_n=300, extra=dict(sep_family=1500)), t=dict(cover_n=40000, soup_n=40000, lf_n=15000, mb_n=3000, extra=dict(sep_family=20000)), events=True),
-    "C05": dict(q=dict(cover_n=1200, soup_n=3000, lf_n=1200, mb_n=300, extra=dict(sep_family=1500)), t=dict(cover_n=40000, soup_n=40000, lf_n=15000, mb_n=3000, extra=dict(sep_family=20000)), events=False),
+    "C02": dict(q=dict(cover_n=1200, soup_n=4000, trunc_n=300, mb_n=800, extra=dict(sep_family=1500, multiline_family=2500)), t=dict(cover_n=40000, soup_n=50000, trunc_n=4000, mb_n=8000, extra=dict(sep_family=20000, multiline_family=30000)), events=True),
+    "C03": dict(q=dict(cover_n=1200, soup_n=3000, mb_n=2500, trunc_n=200, extra=dict(sep_family=1500, multiline_family=2500)), t=dict(cover_n=40000, soup_n=40000, mb_n=30000, trunc_n=2000, extra=dict(sep_family=20000, multiline_family=30000)), events=True),
+    "C04": dict(q=dict(cover_n=1200, soup_n=3000, lf_n=1200, mb_n=300, extra=dict(sep_family=1500, multiline_family=2500)), t=dict(cover_n=40000, soup_n=40000, lf_n=15000, mb_n=3000, extra=dict(sep_family=20000, multiline_family=30000)), events=True),
+    "C05": dict(q=dict(cover_n=1200, soup_n=3000, lf_n=1200, mb_n=300, extra=dict(sep_family=1500, multiline_family=2500)), t=dict(cover_n=40000, soup_n=40000, lf_n=15000, mb_n=3000, extra=dict(sep_family=20000, multiline_family=30000)), events=False),
     "C06": dict(q=dict(cover_n=1200, soup_n=5000, trunc_n=400, mb_n=500, case_n=300), t=dict(cover_n=40000, soup_n=60000, trunc_n=5000, mb_n=5000, case_n=3000), events=False),
     "C07": dict(q=dict(cover_n=1200, soup_n=3000, trunc_n=300, mb_n=300, extra=dict(string_family=5000)), t=dict(cover_n=40000, soup_n=30000, trunc_n=3000, mb_n=3000, extra=dict(string_family=80000)), events="all"),
     "C08": dict(q=dict(soup_n=2000, extra=dict(num_family=6000)), t=dict(soup_n=20000, extra=dict(num_family=150000)), events=False),
@@ -757,12 +757,18 @@ def run_c15(ctx):
     bpool = [f for f in frag] + [x + y for x in rng.sample(frag, 40) for y in rng.sample(frag, 10)] + \
         gen.soup(rng, 1500 if q else 20000) + [s for _, s in gen.corpus() if len(s) < 300]
     bpool = [b for b in gen.dedup(bpool) if gen.valid_utf8(b) and not b.startswith("\ufeff")]
+    # continuations whose first default-channel token is decided by the look-behind (statement start), behind hidden tokens
+    sens = [h + k for h in ["", " ", "\n", "/*c*/", "/*c*/ \n", "\t\n "]
+            for k in ["datalines;\n1 2\n;\nrun;", "cards;\nx\n;", "lines4;\na;b\n;;;;", "datalines4;\n;;;;", "cards4 ;\n;;;;x",
+                      "DataLines;\n1\n;", "datalines", "datalines x;", "* c;", "*c;a=1;", "* 'c;' ;", "%lbl: a;", "%lbl : %let a=1;",
+                      "%let a=1;", "%if 1 %then a;", "%* c;", "a*b;", "=*c;", "%m * c;", "%m(1) %lbl:", "'s' * c;", ";* c;",
+                      "%put a; datalines;\n1\n;", "%end; * c;", "%macro m; * c; %mend;"]]
     per_a = 6 if q else 30
-    maxpairs = 9000 if q else 150000
+    maxpairs = 10000 if q else 150000
     tuples = []
     rng.shuffle(closed)
     for a in closed:
-        for b in rng.sample(bpool, per_a):
+        for b in rng.sample(bpool, per_a) + rng.sample(sens, 2 if q else 8):
             tuples.append((a, b))
         if len(tuples) >= maxpairs:
             break
